@@ -1,5 +1,6 @@
 import Vore.Props.C01
 import Vore.Props.C10
+import Vore.Lemmas.ReplaceSound
 import Vore.Props.C03
 /-!
 # C09 — Running an accepted program never crashes, whatever the input
@@ -43,6 +44,123 @@ theorem C09_no_panic_guarded (G : GEnv) (e : Expr) (r : RExpr) (hr : resolveBody
   rw [hv vf hle amt]
   simp
 
+/-- a replacer without transform items never fails: literal strings contribute themselves, names a string
+value or nothing — whatever the match and its variables -/
+def noProc : List RInstr → Bool
+  | [] => true
+  | .proc _ :: _ => false
+  | _ :: rest => noProc rest
+
+theorem runReplacer_noProc (pf : Nat) (vars : VMap) (m : Match) :
+    ∀ (rep : List RInstr) (acc : Option Bytes), noProc rep = true → ∃ r, runReplacer pf vars m rep acc = .ok r := by
+  intro rep
+  induction rep with
+  | nil => intro acc _; exact ⟨acc, rfl⟩
+  | cons i rest ih =>
+    intro acc h
+    cases i with
+    | str s => simp only [noProc] at h; simp only [runReplacer, replItem]; exact ih _ h
+    | var x =>
+      simp only [noProc] at h
+      simp only [runReplacer, replItem]
+      cases vars.get x with
+      | none => exact ih _ h
+      | some v =>
+        cases v with
+        | str s => exact ih _ h
+        | map mp => exact ih _ h
+    | proc b => simp [noProc] at h
+
+/-- **replace commands**: if the `with` list names no transform, producing the replacements cannot panic,
+for any list of matches: together with `C09_no_panic_callfree` / `C09_no_panic_guarded` a replace command fails
+only where its search fails; process code (transforms) is C12's subject -/
+theorem C09_replacements_never_panic (pf : Nat) (fn : Bytes) (rep : List RInstr) (h : noProc rep = true) (total : Nat) :
+    ∀ ms : List Match, ∃ out, replaceAll pf fn rep total ms = .ok out := by
+  intro ms
+  induction ms with
+  | nil => exact ⟨[], rfl⟩
+  | cons m rest ih =>
+    obtain ⟨r, hr⟩ := runReplacer_noProc pf (replacerVars m total fn) m rep none h
+    obtain ⟨out, ho⟩ := ih
+    exact ⟨{ m with replacement := r } :: out, by simp only [replaceAll, hr, ho]⟩
+
+/-- every transform of the replacer is accepted by the checker and keeps each variable at one type -/
+def procsSound : List RInstr → Prop
+  | [] => True
+  | .proc body :: rest =>
+    (Spec.Typing.SingleTyped Spec.Typing.initEnv body ∧ checkBody .transformation body = true) ∧ procsSound rest
+  | _ :: rest => procsSound rest
+
+theorem runReplacer_panic_only_div_zero (pf : Nat) (vars : VMap) (m : Match) :
+    ∀ (rep : List RInstr) (acc : Option Bytes) (t : String), procsSound rep →
+      runReplacer pf vars m rep acc = .panic t → t = "integer divide by zero" := by
+  intro rep
+  induction rep with
+  | nil => intro acc t _ h; simp [runReplacer] at h
+  | cons i rest ih =>
+    intro acc t hs h
+    cases i with
+    | str s => simp only [runReplacer, replItem] at h; exact ih _ t hs h
+    | var x =>
+      simp only [runReplacer, replItem] at h
+      cases hv : vars.get x with
+      | none => rw [hv] at h; exact ih _ t hs h
+      | some v =>
+        rw [hv] at h
+        cases v with
+        | str s => exact ih _ t hs h
+        | map mp => exact ih _ t hs h
+    | proc body =>
+      simp only [runReplacer] at h
+      cases hi : replItem pf vars m (.proc body) with
+      | ok r =>
+        rw [hi] at h
+        cases r with
+        | none => exact ih _ t hs.2 h
+        | some s => exact ih _ t hs.2 h
+      | panic t' =>
+        rw [hi] at h
+        simp only [Res.panic.injEq] at h
+        subst h
+        exact replItem_proc_sound pf vars m body hs.1.1 hs.1.2 t' hi
+      | pfuel => rw [hi] at h; simp at h
+
+/-- **replace commands with transforms**: when every transform named in the `with` list is accepted by the
+checker and keeps each variable at one type (C12's hypothesis), producing the replacements can panic in one way
+only — Go's integer division by zero, the recorded finding — whatever the matches and their variables -/
+theorem C09_replacements_panic_only_div_zero (pf : Nat) (fn : Bytes) (rep : List RInstr) (hs : procsSound rep)
+    (total : Nat) : ∀ (ms : List Match) (t : String), replaceAll pf fn rep total ms = .panic t →
+      t = "integer divide by zero" := by
+  intro ms
+  induction ms with
+  | nil => intro t h; simp [replaceAll] at h
+  | cons m rest ih =>
+    intro t h
+    simp only [replaceAll] at h
+    cases hr : runReplacer pf (replacerVars m total fn) m rep none with
+    | ok r =>
+      rw [hr] at h
+      cases hrest : replaceAll pf fn rep total rest with
+      | ok out => rw [hrest] at h; simp at h
+      | panic t' => rw [hrest] at h; simp only [Res.panic.injEq] at h; subst h; exact ih t' hrest
+      | pfuel => rw [hrest] at h; simp at h
+    | panic t' =>
+      rw [hr] at h
+      simp only [Res.panic.injEq] at h
+      subst h
+      exact runReplacer_panic_only_div_zero pf _ m rep none t' hs hr
+    | pfuel => rw [hr] at h; simp at h
+
+/-- a whole call-free replace command without transforms returns `.ok` on every input -/
+theorem C09_replace_command_no_panic (text : Bytes) (e : Expr) (hcf : CallFree e) (nid : Nat) (hne : codeLen e ≠ 0)
+    (pf : Nat) (amt : Amount) (rep : List RInstr) (h : noProc rep = true) (fn : Bytes) :
+    ∃ vf0, ∀ vf, vf0 ≤ vf → ∃ out, runCmd pf vf fn text (.replace amt (genCF e 0 nid).1 rep) = some (.ok out) := by
+  obtain ⟨A, _, hA⟩ := C01_refines_partial text e hcf nid hne
+  obtain ⟨vf0, hv⟩ := hA pf
+  refine ⟨vf0, fun vf hle => ?_⟩
+  obtain ⟨out, ho⟩ := C09_replacements_never_panic pf fn rep h (window amt A).length (window amt A)
+  exact ⟨out, by simp only [runCmd, hv vf hle amt, ho]⟩
+
 /-- the empty input: no match, no crash, for any instruction list -/
 theorem C09_empty_input (pf vf : Nat) (prog : List Instr) (amt : Amount) :
     findMatches pf vf prog amt [] = some (.ok []) := by
@@ -61,6 +179,9 @@ theorem C09_empty_backref_at_eof (text : Bytes) (x : String) (d : Data) (h : d.e
 
 #print axioms C09_no_panic_callfree
 #print axioms C09_no_panic_guarded
+#print axioms C09_replacements_never_panic
+#print axioms C09_replace_command_no_panic
+#print axioms C09_replacements_panic_only_div_zero
 #print axioms C09_empty_input
 #print axioms C09_empty_body
 #print axioms C09_empty_backref_at_eof
